@@ -10,6 +10,7 @@ The rules of C01/C02/C03/C04/C13 are statements about these records.
 from __future__ import annotations
 
 import ast
+import re
 from dataclasses import dataclass, field
 
 from . import calg
@@ -65,7 +66,15 @@ class OdeModel:
             raise AnalysisError("_prepare_ode_content lost its parameters", (FILE, self.func.lineno))
         self.NI = ("param", params[0])
         self.SPEC = ("attr", self.NI, "species")
-        self.REAC = ("attr", self.NI, "reactions")
+        self.REAC_FIELD = ("attr", self.NI, "reactions")
+        self.REAC = self.REAC_FIELD
+        # the local list of reactions may be a guarded view of the field (`netinfo.reactions or [dummy]`); which
+        # list is enumerated is C03's subject (sizes), the mass-action rules work on whatever that list is
+        for nm, lst in fl.assigns.items():
+            for v, loops, guards, line, seq in lst:
+                v = simp(v)
+                if v[0] == "bool" and v[1] == "Or" and v[2] and v[2][0] == self.REAC_FIELD and not loops:
+                    self.REAC = v
         self.HEAT = ("attr", self.NI, "heating")
         self.COOL = ("attr", self.NI, "cooling")
         self.N_SPEC = ("call", ("global", "len"), (self.SPEC,), ())
@@ -257,6 +266,11 @@ class OdeModel:
             else:
                 h = factors[0]
                 s.coeff = ("factor", h[1] if h[0] == "fmt" else h)
+                # a user-supplied expression must be parenthesised where it is multiplied
+                hn = next(k for k, x in lw.holes.items() if x == h)
+                if not re.search(r"\(\s*" + re.escape(hn) + r"\s*\)", lw.text):
+                    s.problems.append(("viol", "factor-parentheses",
+                                       f"the user-supplied factor is pasted without parentheses into a product ({lw.text!r}): a factor such as `a - b` binds wrongly"))
         # the entity whose reactants are multiplied
         if kind == "mod":
             ent = None
@@ -377,6 +391,35 @@ class OdeModel:
                     s.problems.append(("viol", "removed-factor", f"removed factor {show(minus)} is not the factor of the column variable {show(want)}"))
                 if kind == "mod" and minus != Y(colvar):
                     s.problems.append(("viol", "removed-factor", f"removed factor {show(minus)} is not y[IDX_<alias of the column species>]"))
+
+
+def write_read_order(m: OdeModel, role: str):
+    """(last write seq, line), (first consumer seq, line, what) for rhs / jacrhs.
+    Consumers: the `fex` comprehension (rhs); the CSR builder's reads and the Jacobian(...) construction (jacrhs)."""
+    fl = m.flow
+    name = m.RHSNAME if role == "rhs" else m.JACNAME
+    acc = ("acc", name)
+    writes = [f for f in fl.facts if f.target == name and f.kind in ("store", "augstore", "append", "mutate", "remove")]
+    last = max(writes, key=lambda f: f.seq) if writes else None
+    consumers = []
+    if role == "rhs":
+        for nm, lst in fl.assigns.items():
+            for v, loops, guards, line, seq in lst:
+                if v[0] == "comp" and any(x == acc for x in walk(v)):
+                    consumers.append((seq, line, f"`{nm}` is built from {name}"))
+    else:
+        for f in fl.facts:
+            if f.target == name:
+                continue
+            uses = (f.value is not None and any(x == acc for x in walk(f.value))) or any(any(x == acc for x in walk(g)) for g, _ in f.guards)
+            if uses and f.kind in ("append", "augassign", "return", "call"):
+                consumers.append((f.seq, f.line, f"{f.kind} `{f.target}` reads {name}"))
+        for nm, lst in fl.assigns.items():
+            for v, loops, guards, line, seq in lst:
+                if v[0] == "meth" and v[2] == "Jacobian":
+                    consumers.append((seq, line, "Jacobian(...) is constructed"))
+    first = min(consumers) if consumers else None
+    return last, first
 
 
 def model(tree) -> OdeModel:
